@@ -64,6 +64,45 @@ CMPOPS = [['<'], ['>'], ['=='], ['>='], ['<='], ['!='], ['in'], ['not', 'in'], [
 AUGOPS = ['+=', '-=', '*=', '/=', '//=', '%=', '@=', '&=', '|=', '^=', '>>=', '<<=', '**=']
 
 
+_ID_TABLE = {}
+
+
+def _id_table():
+    """identifier characters that are the same in every Unicode version since 3.2 (assigned there, same general category),
+    so that the reference's and this parser's character tables agree on them: (start characters, continue-only characters)"""
+    if not _ID_TABLE:
+        import unicodedata
+        old = unicodedata.ucd_3_2_0
+        start, cont = [], []
+        for cp in list(range(0x80, 0x3100)) + list(range(0x4E00, 0x4E80)) + list(range(0xAC00, 0xAC40)) + list(range(0xFB00, 0xFFF0)) + list(range(0x10000, 0x10100)) + \
+                list(range(0x1D400, 0x1D800)):
+            ch = chr(cp)
+            cat = unicodedata.category(ch)
+            if cat == 'Cn' or old.category(ch) != cat or unicodedata.normalize('NFKC', ch) != ch:
+                continue
+            if ch.isidentifier():
+                start.append(ch)
+            elif ('a' + ch).isidentifier():
+                cont.append(ch)
+        _ID_TABLE['start'], _ID_TABLE['cont'] = start, cont
+    return _ID_TABLE
+
+
+def gen_identifier(cs):
+    """a random valid identifier over the whole identifier alphabet (letters of any script, letter numbers, combining marks,
+    non-ASCII digits, connector punctuation), stable under NFKC (listed finding C01-F4 is about names that are not)"""
+    import unicodedata
+    t = _id_table()
+    n = 1 + cs.choice(4)
+    out = cs.pick(['_', 'a', 'Z']) if cs.bool(60) else t['start'][cs.choice(len(t['start']))]
+    for _ in range(n - 1):
+        k = cs.choice(4)
+        out += t['start'][cs.choice(len(t['start']))] if k == 0 else t['cont'][cs.choice(len(t['cont']))] if k == 1 else cs.pick('ab_09')
+    if not out.isidentifier() or unicodedata.normalize('NFKC', out) != out or out in KW:
+        return None
+    return out
+
+
 class PyGen:
     def __init__(self, cs, budget=60, py312=False, fstrings=True, avoid=(), ascii_only=False, soft_kw=True, counters=None):
         self.cs = cs
@@ -102,6 +141,11 @@ class PyGen:
 
     def name(self, soft_ok=True):
         cs = self.cs
+        if not self.ascii_only and cs.bool(14):
+            n = gen_identifier(cs)
+            if n:
+                self.feat('random_unicode_name')
+                return T(n, 'n')
         n = cs.pick(NAMES)
         if n in SOFT:
             if not (soft_ok and self.soft_kw):
